@@ -138,6 +138,15 @@ func multiMembers() []multiMember {
 		files:  []*fam.FileSpec{{Name: "a.json", ID: "https://example.com/a", Root: objSpec(&fam.Prop{Label: "first", Spec: t, Required: true})}, {Name: "b.json", ID: "https://example.com/b", Root: objSpec(&fam.Prop{Label: "k", Spec: &fam.Spec{Kind: "boolean"}})}},
 		orders: [][]string{{"a.json"}, {"a.json", "b.json"}},
 		outOf:  map[string]string{"a.json": "out.go", "b.json": "out.go"}, pkgOf: map[string]string{"out.go": "example.com/pkg/model"}})
+	// two different files that declare the same $id (a copy-pasted header): each still gets its own root type, named after its file
+	{
+		sameA, sameB := mkA(), mkB()
+		sameA.Root = objSpec(&fam.Prop{Label: "own", Spec: &fam.Spec{Kind: "boolean"}, Required: true})
+		sameA.ID, sameB.ID = "https://example.com/same", "https://example.com/same"
+		out = append(out, multiMember{name: "two files with the same $id", cfg: base, files: []*fam.FileSpec{sameA, sameB},
+			orders: [][]string{{"a.json", "b.json"}, {"b.json", "a.json"}},
+			outOf:  map[string]string{"a.json": "out.go", "b.json": "out.go"}, pkgOf: map[string]string{"out.go": "example.com/pkg/model"}})
+	}
 	// a whole-file reference to a sibling whose root has properties but no "type" and refers back to itself by file name
 	{
 		self := func() *fam.Spec { return &fam.Spec{RefRootOf: "node.json", Kind: "object"} }
